@@ -176,6 +176,39 @@ CHECKS.update({
             'outside the model.', 'DESIGN §4 C19'),
 })
 
+CHECKS.update({
+    'C07': ('Lean 4 proof over an executable model of the resolution logic (layered forward scope, proxy state machine, event histories; '
+            'structural induction over hint expressions, induction over histories, printer/parser round trip) + generated-program '
+            'differential in fresh interpreters (4 annotation variants x placements x definition orders, forced sampler draws)',
+            'Theorems (Props/C07.lean, 20): string / postponed / names-only-quoted forms are stored with exactly the evaluated form\'s hint '
+            'when the forward scope binds the names as Python does and a proxy-free hint is checked unchanged forever; layer order and '
+            'agreement with Python\'s scoping; proxy state machine: unresolved raises and leaves the cache untouched, resolves once defined, '
+            'remembered after success only; define-after = define-before for every module-level history without rebinding. Counterexample '
+            'theorems pin the code\'s deviations. Tie: corpus + systematic placement x scope x order enumeration + seeded programs, fresh '
+            'interpreter each, 4 variants; verdict vectors under forced draws vs the reference callable decorated with the model-predicted '
+            'hint and vs the hint Python\'s scoping prescribes.',
+            'PARTIAL. Proved: the resolution LOGIC of the model. Modelled, not verified: frame introspection, eval of strings, PEP 563/649/749 '
+            'plumbing, the check of the resolved hint (Bear core). 20 known findings (name-based fake proxies after the parent scope returned, '
+            'only the directly enclosing scope\'s locals, NONRANDOM check through lazily resolved PEP hints, ...). CPython 3.12 only.',
+            'DESIGN §4 C07'),
+})
+
+CHECKS.update({
+    'C15': ('Lean 4 invariant/simulation proofs over transition systems with CPython\'s atomicity assumptions + lock skeletons re-extracted '
+            'from the source AST on every run (table theorems) + controlled line/bytecode-granularity thread scheduler on the real code '
+            'with cooperative locks, sequential-reference oracle and deterministic schedule replay',
+            'Theorems (Props/C15.lean), every schedule, any number of threads: accesses under the variable\'s lock serialise to the '
+            'lock-acquisition order; get-or-create under a lock gives one object per key (BeartypeConf, TypeHint; re-entrant factory); no '
+            'pooled item is held twice; the lock-free memo returns f k; ranked lock order with RLock re-entrancy never deadlocks; the '
+            'extracted skeletons of the 10 locked regions and 3 memo sites satisfy these disciplines (decide). Tie: 2-3 real threads run '
+            'public-API operations under enumerated schedules (every lock event, visits of every line of the synchronisation files with one '
+            'and two preemptions, PCT, random walks); oracle on real outcomes: no exception, deadlock or hang; no pooled item handed out '
+            'twice; singleton identity; outcome in the outcomes of all sequential orders.',
+            'PARTIAL: theorems hold for the model (atomic step = one lock op / dict get / dict set / list pop / list append; GIL builds); real '
+            'interleavings are searched, not proved (free-threaded builds, C-level races not exhibited). Trusted: Lean kernel + standard '
+            'axioms, AST translator, scheduler harness.', 'DESIGN §4 C15'),
+})
+
 PENDING = {
 }
 
